@@ -115,7 +115,7 @@ CHECKS = {
             'Stand-alone multigrid on uniform grids 8^3..32^3 (thorough: '
             '64^3, 128^3 and non-cubic shapes) for cycle F/V/W x isotropic / '
             'triaxial x frequency / Laplace x (nu_pre, nu_post): rate(n) <= '
-            '1.5 rate(16^3) + 0.02, rate <= 1.5 x pinned, cycles <= pinned '
+            '2.5 rate(16^3) + 0.05, rate <= 1.5 x pinned, cycles <= pinned '
             '+ 3, exit 0. A measurement against thresholds calibrated on the '
             'pinned tree (mc/checks/c06_table.json), not an invariant: '
             'claimed as exploration.',
